@@ -109,7 +109,11 @@ func caseDivider(w *px.Writer, class string, ps []uint, d uint, m map[uint]uint,
 
 		m2 := px.CloneMap(m)
 		v2(append([]uint(nil), ps...), d, m2)
-		m1 := v1(append([]uint(nil), ps...), d, px.CloneMap(m))
+		given := px.CloneMap(m)
+		m1 := v1(append([]uint(nil), ps...), d, given)
+		if m != nil && len(ps) > 0 && px.MapNZ(given) != px.MapNZ(m1) {
+			w.Fail("C14 %s ps=%s d=%d m=%s : the v1 divider did not add to the distribution it was given (%s), only to the one it returned (%s)", name, px.List(ps), d, px.Map(m), px.Map(given), px.Map(m1))
+		}
 
 		nontrivial := len(ps) > 1 && d > 0
 		w.Case(class+":"+name, nontrivial, fmt.Sprintf("%s2 %s %d %s", name, px.List(ps), d, px.Map(m)), px.MapNZ(m2))
